@@ -240,6 +240,16 @@ func (g *G) refsOf(t Ty) []ref.Expr {
 			if sameTy(f.Ty, t) {
 				out = append(out, &ref.DataRef{Name: "ij", Acc: []ref.Acc{g.keyAcc(f.Name)}})
 			}
+			// injected lists, indexed by a literal or - inside a loop - by an index that changes from one evaluation
+			// of the same reference to the next
+			if f.Ty.K == "list" && sameTy(*f.Ty.Elem, t) {
+				acc := g.idxAcc(g.R.Intn(4))
+				if len(g.loops) > 0 && g.R.Bool() {
+					lv := &ref.DataRef{Name: g.loops[g.R.Intn(len(g.loops))]}
+					acc = ref.Acc{Kind: 2, Arg: &ref.Binary{Op: "%", L: &ref.Call{Fn: "index", Args: []ref.Expr{lv}}, R: lit(ref.Int(4))}}
+				}
+				out = append(out, &ref.DataRef{Name: "ij", Acc: []ref.Acc{g.keyAcc(f.Name), acc}})
+			}
 		}
 	}
 	return out
@@ -776,6 +786,14 @@ func (g *G) useOf(b *binding) ref.Node {
 	return &ref.Print{E: d}
 }
 
+// blockOrEmpty is Block, or now and then a block with nothing in it ({case 1}{case 2}..., {if $x}{else}...).
+func (g *G) blockOrEmpty(depth, n int) []ref.Node {
+	if g.R.P(1, 8) {
+		return []ref.Node{}
+	}
+	return g.Block(depth, n)
+}
+
 // closeBlock appends uses for lets declared since mark that nothing used, and pops them.
 func (g *G) closeBlock(mark int, body []ref.Node) []ref.Node {
 	for _, b := range g.scope[mark:] {
@@ -830,11 +848,11 @@ func (g *G) command(depth int) []ref.Node {
 		k := 1 + g.R.Intn(2)
 		for i := 0; i < k; i++ {
 			n.Conds = append(n.Conds, g.boolOperand(2))
-			n.Bodies = append(n.Bodies, g.Block(depth-1, 2))
+			n.Bodies = append(n.Bodies, g.blockOrEmpty(depth-1, 2))
 		}
 		if g.R.Bool() {
 			n.HasElse = true
-			n.Else = g.Block(depth-1, 2)
+			n.Else = g.blockOrEmpty(depth-1, 2)
 		}
 		return []ref.Node{n}
 	case 9:
@@ -850,12 +868,12 @@ func (g *G) command(depth int) []ref.Node {
 					c.Vals = append(c.Vals, lit(ref.Str(g.pick(PlainStrings))))
 				}
 			}
-			c.Body = g.Block(depth-1, 2)
+			c.Body = g.blockOrEmpty(depth-1, 2)
 			n.Cases = append(n.Cases, c)
 		}
 		if g.R.P(2, 3) {
 			n.HasDef = true
-			n.Default = g.Block(depth-1, 2)
+			n.Default = g.blockOrEmpty(depth-1, 2)
 		}
 		return []ref.Node{n}
 	case 10, 11:
